@@ -84,6 +84,65 @@ def lib3d(path, find_gaps):
     print("INPROCESS-REPEAT-EQUAL", a == b)
 
 
+def external_conflicts(path, seedstr):
+    """An external tool's pair list over a corpus structure: the structure's own pairs plus
+    extra canonical pairs that give residues a second (and third) partner of the same rank,
+    exact and reversed duplicates - pushed through the adapter's library entry point."""
+    import random
+
+    from rnapolis.adapter import extract_secondary_structure_from_external
+    from rnapolis.annotator import extract_base_interactions
+    from rnapolis.common import BaseInteractions, BasePair, LeontisWesthof
+    from rnapolis.parser import read_3d_structure
+    from rnapolis.util import handle_input_file
+
+    s = read_3d_structure(handle_input_file(path), None)
+    bi = extract_base_interactions(s)
+    rng = random.Random(seedstr)  # str seeding is independent of PYTHONHASHSEED
+    res2d = {}
+    for r in s.residues:
+        if r.is_nucleotide:
+            res2d.setdefault(r.one_letter_name.upper(), []).append(r)
+    by3d = {}
+    for r in s.residues:
+        by3d[(r.label, r.auth)] = r
+    pairs = list(bi.basePairs)
+    canon = [p for p in pairs if p.lw == LeontisWesthof.cWW and p.saenger is not None]
+    extra = []
+    pos = {(r.label, r.auth): k for k, r in enumerate(s.residues)}
+    for p in rng.sample(canon, min(len(canon), 4)):
+        r2 = by3d.get((p.nt2.label, p.nt2.auth))
+        if r2 is None:
+            continue
+        # the second partner is a neighbour of the first one (a register shift, as near pairs of
+        # external tools are): no new long-range knots, whose k! dot-bracket enumeration would not end
+        cands = [r for r in res2d.get(r2.one_letter_name.upper(), []) if (r.label, r.auth) not in ((p.nt2.label, p.nt2.auth), (p.nt1.label, p.nt1.auth))
+                 and abs(pos[(r.label, r.auth)] - pos[(r2.label, r2.auth)]) <= 3]
+        for r in rng.sample(cands, min(len(cands), rng.choice([1, 1, 2]))):
+            from rnapolis.common import Residue
+
+            q = BasePair(p.nt1, Residue(r.label, r.auth), p.lw, p.saenger)
+            extra.append(q)
+            if rng.random() < 0.3:
+                extra.append(BasePair(q.nt2, q.nt1, q.lw, q.saenger))
+    allp = pairs + extra
+    rng.shuffle(allp)
+    ext = BaseInteractions(allp, bi.stackings, bi.baseRiboseInteractions, bi.basePhosphateInteractions, bi.otherInteractions)
+
+    def once():
+        s2d, dbs, mapping = extract_secondary_structure_from_external(s, ext, None, False, False)
+        out = [s2d.bpseq, s2d.dotBracket, s2d.extendedDotBracket] + list(dbs)
+        for group in (s2d.stems, s2d.singleStrands, s2d.hairpins, s2d.loops):
+            out += [str(e) for e in group]
+        out += [repr(x) for x in s2d.interStemParameters]
+        return "\n".join(out)
+
+    a, b = once(), once()
+    print(len(extra), "extra pairs")
+    print(a)
+    print("INPROCESS-REPEAT-EQUAL", a == b)
+
+
 def main():
     repo = os.environ.get("VERIF_REPO", "/repo")
     sys.path.insert(0, os.path.join(repo, "src"))
@@ -92,6 +151,8 @@ def main():
         return lib2d(*argv)
     if what == "lib3d":
         return lib3d(*argv)
+    if what == "external_conflicts":
+        return external_conflicts(*argv)
     if what == "lib2d_batch":
         return lib2d_batch(*argv)
     if what == "lib3d_batch":
